@@ -143,25 +143,26 @@ RetQuery ==
 
 \* ---- the strategy chose a metric (C17) ----
 PassStrategies == {"sorted", "timesorted", "naive"}
-Eligible(now) == IF T.strategy = "timesorted"
-                   THEN {m \in keys : Points(m) # {} /\ (T.lag = 0 \/ now - Oldest(m) > T.lag)}
-                   ELSE keys
+\* lag: MIN_TIMESTAMP_LAG in force when the strategy looked (e.lag; the shutdown hook sets it to 0 while the daemon runs)
+EligibleL(now, lag) == IF T.strategy = "timesorted"
+                         THEN {m \in keys : Points(m) # {} /\ (lag = 0 \/ now - Oldest(m) > lag)}
+                         ELSE keys
 
 Chose ==
   /\ IsEv("chose")
   /\ LET e == Ev[l]
-         rem == IF remaining = {} THEN Eligible(e.now) ELSE remaining
+         rem == IF remaining = {} THEN EligibleL(e.now, e.lag) ELSE remaining
          f1 == IF T.strategy \in {"max", "bucketmax"} /\ e.m # 0 /\ "f9" \notin flags
                   /\ (e.m \notin keys \/ Count(e.m) # MaxCount)
                THEN {"maxfirst"} ELSE {}
          f2 == IF T.strategy \in PassStrategies /\ e.m # 0 /\ e.m \notin rem
                THEN {"fairpass"} ELSE {}
-         f3 == IF T.strategy = "timesorted" /\ T.lag > 0 /\ e.m # 0 /\ e.m \in keys /\ Points(e.m) # {}
-                  /\ ~(e.now - Oldest(e.m) > T.lag)
+         f3 == IF T.strategy = "timesorted" /\ e.lag > 0 /\ e.m # 0 /\ e.m \in keys /\ Points(e.m) # {}
+                  /\ ~(e.now - Oldest(e.m) > e.lag)
                THEN {"lag"} ELSE {}
          f4 == IF e.m # 0 /\ e.m \notin keys THEN {"chosestale"} ELSE {}
          \* nothing chosen although a metric's oldest datapoint is older than the lag at the time the strategy looked
-         f5 == IF T.strategy = "timesorted" /\ T.lag > 0 /\ e.m = 0 /\ Eligible(e.now) # {} THEN {"lagstarved"} ELSE {}
+         f5 == IF T.strategy = "timesorted" /\ T.lag > 0 /\ e.m = 0 /\ EligibleL(e.now, e.lag) # {} THEN {"lagstarved"} ELSE {}
      IN /\ flags' = flags \cup f1 \cup f2 \cup f3 \cup f4 \cup f5
         /\ remaining' = IF T.strategy \in PassStrategies THEN rem \ {e.m} ELSE remaining
         /\ chosen' = e.m
